@@ -44,6 +44,12 @@ CHECKS = {
  "C09": dict(cat="exploration", ref="DESIGN.md §6 C09",
    technique="deterministic simulation with fault injection: seeded runs with desync detection on; fault = consistent divergence of one peer's game from a seeded frame; oracles = zero false alarms, bounded detection latency, checksums in the event are ones the peers really saved",
    text="False-alarm half: C01's space with detection on (intervals 1..=12, sparse on/off, lossy ChecksumReports) and deterministic games must never produce DesyncDetected - including the schedule behind the 0.11 false positive (a rollback that rewrites a reporting frame in the call that confirms it). Detection half: one peer's game diverges consistently from a seeded frame F; every peer must be told, for a frame >= F and the right address, within 1 s of its confirmed frame passing F + 4 intervals + window + delay, with checksums both sides really computed."),
+ "C10": dict(cat="exploration", ref="DESIGN.md §6 C10",
+   technique="deterministic simulation with fault injection: node death in 3-4 peer sessions with a per-survivor split of the dying peer's last packets; oracle = cross-survivor equality of final inputs/statuses/states for the dropped players, no panic, liveness",
+   text="Three or four peers in rollback mode; one stops at a seeded instant; independently for each survivor its packets are dropped from 0-150 ms before the death, so the survivors hold different last frames for it and time it out at different instants; survivor links stay healthy. No survivor may panic, and once all have disconnected the victim their final inputs and statuses for its players and their states must agree on every frame. On the unchanged tree this is VIOLATED whenever the split is non-empty (panic in load_frame / adjust_gamestate / input queue, or silent divergence): recorded as known findings C10-cutoff-* because no small repair exists; the check stays armed for every other failure and for agreement failures without a split."),
+ "C11": dict(cat="exploration", ref="DESIGN.md §6 C11",
+   technique="deterministic simulation with fault injection: seeded histories of set_input_delay calls (before the first frame, several per tick, while stalled, per-player) inside lossy multi-peer runs; oracle = executable input-delay reference model checked at owner, remotes and spectators",
+   text="C01's space (rollback and lockstep, 2-3 peers, 1-2 local players, spectators) with 1-8 set_input_delay calls per run at seeded instants. A 30-line reference model of the documented semantics (an increase repeats the last input for the frames it opens up, a decrease drops submissions until the queue has caught up) defines every player's true input per frame; owner, every remote and every spectator must end with it on every sealed frame, statuses must be truthful, no call may panic."),
 }
 NOT_YET = "not claimed at this commit: the check for this property is still under construction (see DESIGN.md §6 for the planned check)"
 NA = {
